@@ -407,3 +407,25 @@ Proof.
   destruct (Z.eqb_spec c rc) as [->|]; [|discriminate].
   exists idx, resp, a. repeat split; auto.
 Qed.
+
+(* The challenge contribution of a disclosure proof with a non-revocation part exists only if both commitments
+   C_r and C_u are invertible modulo N: a commitment that is 0 modulo N would make the relations it occurs in
+   hold vacuously (a revoked holder could then forge an accepted proof). *)
+Theorem nonrev_commitments_are_units_lem pk p choice l p' nr :
+  proofD_contrib pk p choice = Ok (l, p') -> pd_nr p = Some nr ->
+  exists cr cu, nr_Cr nr = Some cr /\ nr_Cu nr = Some cu /\ Z.gcd cr (pk_N pk) = 1 /\ Z.gcd cu (pk_N pk) = 1.
+Proof.
+  unfold proofD_contrib. intros H Hnr. rewrite Hnr in H.
+  destruct (negb (proofD_validate pk p)); [discriminate|].
+  destruct (reconstruct_z pk p); cbn [obind] in H; try discriminate.
+  destruct (pd_A p); cbn [deref obind] in H; try discriminate.
+  destruct (rev_index p choice) as [idx| |]; cbn [obind] in H; try discriminate.
+  destruct (idx <? 0); [discriminate|].
+  destruct (lookup_ptr (pd_AResp p) idx) as [resp|]; [|discriminate].
+  unfold set_expected in H.
+  destruct (nr_wellformed pk nr (pd_C p) (Some resp)) eqn:W; cbn [negb] in H; [|discriminate].
+  unfold nr_wellformed in W. apply andb_true_iff in W as [_ W].
+  destruct (nr_Cr nr) as [cr|]; [|discriminate]. destruct (nr_Cu nr) as [cu|]; [|discriminate].
+  apply andb_true_iff in W as [W1 W2]. apply Z.eqb_eq in W1. apply Z.eqb_eq in W2.
+  exists cr, cu. auto.
+Qed.
